@@ -112,6 +112,30 @@ CHECKS = {
         design_ref="DESIGN.md 4 C08",
         note="Trusted: TLC/SANY/Json. TLA+ has no sqrt/eigh: the normalisation and vector-neuron equation is sampled on the code (tolerance 1e-4, 2e-3 on the eigh path), not model-checked.",
     ),
+    "C09": dict(
+        engine="tlc+trace+exploration",
+        technique="TLA+ training-loop machine with the filter-bank guard on TrainStep, model-checked over all admitted bank evolutions; real ml.train runs (sgd/adam/adamw) on architectures from the Architectures spec recorded and validated by the TLC trace spec; the returned model re-checked numerically for all g",
+        category="model_checking",
+        text=("MC_TrainLoop explores loss histories x epoch orders x per-step bank evolutions {same, scaled} and checks LoopInv. Real ml.train "
+              "histories on tiny equivariant models (ResNet / U-Net / dilated ResNet, with and without group norm, pseudo-types) with sgd, adam "
+              "and adamw+weight decay are recorded through harness-level observers; Trace_TrainLoop validates every StopCheck / MakeBatches / "
+              "TrainStep (bank before/after compared leaf by leaf: identical or one common positive factor) / Return. The returned model, whose "
+              "parameters must have moved, is then re-checked for model(g.x)=g.model(x) for every g (exploration, tolerance 1e-2)."),
+        design_ref="DESIGN.md 4 C09",
+        note="Trusted: TLC/SANY/Json. Histories are short (<=3 epochs) and few (3 quick / 8 thorough); the equivariance equation after training is sampled with a tolerance.",
+    ),
+    "C10": dict(
+        engine="tlc+replay",
+        technique="TLA+ spec of group averaging (integer numerator), of a non-equivariant integer inner-model family and of the latitude-band re-layout; TLC checks the commutation / round-trip / flip laws per case and emits expected arrays replayed exactly into models.GroupAverage and models.Climate1D",
+        category="model_checking",
+        text=("For every (operator list, signature incl. pseudo-types, extents, inner model) TLC checks Closed(G) => the average commutes with "
+              "every h in G (non-closed lists as negative controls, at least one must break), and for every band signature/order, (lon,lat), "
+              "step count and constant layout that From1d o To1d = id, a longitude flip becomes the 1-D flip and the equator symmetrisation "
+              "commutes with the equator reflection. models.GroupAverage around the Python twin of the inner model (always_average, "
+              "inference, off) and Climate1D.to1d/from1d/get_1d_signature/__call__ must reproduce the spec's integer arrays exactly."),
+        design_ref="DESIGN.md 4 C10",
+        note="Trusted: TLC/SANY/Json; inner-model twin (checked against the spec on every case). Bit-exact for |G| in {1,2,4,8}, 1e-6 relative otherwise.",
+    ),
     "C11": dict(
         engine="tlc+replay",
         technique="TLA+ spec of the layer's emitted signature (Emitted/BiasKind) model-checked over the signature x bank-key x bias-mode lattice, and of its value (LayerOutChan) evaluated by TLC on integer cases; both replayed exactly into ml.ConvContract",
